@@ -70,6 +70,7 @@ func standardAtoms() *Atoms {
 	a.addAddr(131, pad20("withdraw-one"))
 	a.addAddr(132, pad20("withdraw-two"))
 	a.addAddr(141, pad20("stranger"))
+	a.addAddr(modProvAtom, modProvBytes) // provider address of the module registered for modSvc (world.go)
 	// module accounts the bank keeper blocks as receivers (model: is_blocked, atoms 9001..9004)
 	a.addAddr(9001, authtypes.NewModuleAddress(types.RequestAccName))
 	a.addAddr(9002, authtypes.NewModuleAddress(types.DepositAccName))
